@@ -50,7 +50,7 @@ def run_replay_subprocess(pid, path, timeout=600):
     """replay a witness against the unpatched code in a fresh process.
     returns (reproduced: bool|None, output)"""
     env = dict(os.environ)
-    env['PYTHONPATH'] = ROOT + ':/repo'
+    env['PYTHONPATH'] = ROOT + ':' + os.environ.get('VF_REPO', '/repo')
     env['VF_REPLAY'] = '1'
     try:
         p = subprocess.run([sys.executable, '-m', 'vf', pid, '--replay', path], cwd=ROOT, env=env,
